@@ -69,6 +69,21 @@ func c03RLd(m map[string]int64, dims []string) corev1.ResourceList {
 
 func c03RL(m map[string]int64) corev1.ResourceList { return c03RLd(m, nil) }
 
+// node capacity: the cpu amount of a "node" op is in MILLI-cores (the cluster total may change by a fraction of a core)
+func c03NodeRL(m map[string]int64, dims []string) corev1.ResourceList {
+	rl := c03RLd(m, dims)
+	rl[corev1.ResourceCPU] = *resource.NewMilliQuantity(m["cpu"], resource.DecimalSI)
+	return rl
+}
+
+func c03Milli(rng *rand.Rand, m map[string]int64) map[string]int64 {
+	m["cpu"] *= 1000
+	if rng.Intn(2) == 0 {
+		m["cpu"] += int64(rng.Intn(1000))
+	}
+	return m
+}
+
 func c03V(m map[string]int64) map[string]int64 {
 	out := map[string]int64{}
 	for _, d := range c03Dims {
@@ -169,7 +184,7 @@ func c03Run(t *testing.T, rec *vu.Recorder, script []c03Op) {
 		switch o.Op {
 		case "node":
 			nodeSeq++
-			n := &corev1.Node{ObjectMeta: metav1.ObjectMeta{Name: fmt.Sprintf("node%d", nodeSeq)}, Status: corev1.NodeStatus{Allocatable: c03RL(o.Delta)}}
+			n := &corev1.Node{ObjectMeta: metav1.ObjectMeta{Name: fmt.Sprintf("node%d", nodeSeq)}, Status: corev1.NodeStatus{Allocatable: c03NodeRL(o.Delta, nil)}}
 			gp.OnNodeAdd(n)
 			ev["delta"] = c03V(o.Delta)
 		case "quota":
@@ -248,7 +263,7 @@ func c03Random(rng *rand.Rand, n int, runtime, checkParent, scale bool) []c03Op 
 		}
 		return out
 	}
-	out = append(out, c03Op{Op: "node", Delta: map[string]int64{"cpu": int64(4 + rng.Intn(20)), "memory": int64(4 + rng.Intn(20)), "gpu": int64(rng.Intn(8))}})
+	out = append(out, c03Op{Op: "node", Delta: c03Milli(rng, map[string]int64{"cpu": int64(4 + rng.Intn(20)), "memory": int64(4 + rng.Intn(20)), "gpu": int64(rng.Intn(8))})})
 	type qs struct {
 		op c03Op
 	}
@@ -316,7 +331,7 @@ func c03Random(rng *rand.Rand, n int, runtime, checkParent, scale bool) []c03Op 
 			quotas[name] = o
 			out = append(out, o)
 		case k == 3:
-			out = append(out, c03Op{Op: "node", Delta: vec(5)})
+			out = append(out, c03Op{Op: "node", Delta: c03Milli(rng, vec(5))})
 		default:
 			id := fmt.Sprintf("p%d", rng.Intn(9))
 			p, ok := pods[id]
